@@ -206,6 +206,11 @@ impl Shared {
         }
     }
 
+    /// Returns true if any futures are waiting for a submission slot.
+    pub(crate) fn has_blocked_futures(&self) -> bool {
+        !lock(&self.blocked_futures).is_empty()
+    }
+
     /// Wake any futures that were blocked on a submission slot.
     pub(crate) fn wake_blocked_futures(&self) {
         // Only wake up futures if a submission slot is available for them.
